@@ -17,6 +17,32 @@ if TYPE_CHECKING:
     )
 
 
+def metropolis(context: Context, log_probability: float) -> bool:
+    """
+    Accept with probability min(1, exp(log_probability)), evaluated without overflow. A
+    uniform number is always drawn so that the random stream does not depend on the
+    outcome.
+
+    Parameters
+    ----------
+    context : Context
+        The simulation context providing the random number generator.
+    log_probability : float
+        The logarithm of the acceptance ratio.
+
+    Returns
+    -------
+    bool
+        True if the move is accepted, False otherwise.
+    """
+    random_number = context.rng.random()
+
+    if log_probability >= 0.0:
+        return True
+
+    return bool(random_number < math.exp(log_probability))
+
+
 class BaseCriteria(ABC):
     """
     Base class for acceptance criteria, it defines the interface for acceptance criteria
@@ -105,9 +131,7 @@ class CanonicalCriteria(BaseCriteria):
             context.atoms.get_potential_energy() - context.last_potential_energy
         )
 
-        return context.rng.random() < math.exp(
-            -energy_difference / (context.temperature * kB)
-        )
+        return metropolis(context, -energy_difference / (context.temperature * kB))
 
 
 class HamiltonianCanonicalCriteria(BaseCriteria):
@@ -135,9 +159,7 @@ class HamiltonianCanonicalCriteria(BaseCriteria):
             - context.last_kinetic_energy
         )
 
-        return context.rng.random() < math.exp(
-            -energy_difference / (context.temperature * kB)
-        )
+        return metropolis(context, -energy_difference / (context.temperature * kB))
 
 
 class IsobaricCriteria(BaseCriteria):
@@ -165,10 +187,11 @@ class IsobaricCriteria(BaseCriteria):
         current_volume = atoms.get_volume()
         old_volume = context.last_cell.volume
 
-        return context.rng.random() < math.exp(
+        return metropolis(
+            context,
             -(energy_difference + context.pressure * (current_volume - old_volume))
             / temperature
-            + (len(atoms) + 1) * np.log(current_volume / old_volume)
+            + (len(atoms) + 1) * np.log(current_volume / old_volume),
         )
 
 
@@ -213,9 +236,10 @@ class IsotensionCriteria(BaseCriteria):
             (context.external_stress - context.pressure) @ self.strain_tensor
         )
 
-        return context.rng.random() < math.exp(
+        return metropolis(
+            context,
             -(energy_difference + elastic_energy) / temperature
-            + (len(atoms) + 1) * np.log(atoms.get_volume() / context.last_cell.volume)
+            + (len(atoms) + 1) * np.log(atoms.get_volume() / context.last_cell.volume),
         )
 
 
@@ -274,5 +298,8 @@ class GrandCanonicalCriteria(BaseCriteria):
             particle_delta * context.chemical_potential - energy_difference
         ) / (context.temperature * kB)
 
-        criteria = math.exp(exponential)
-        return context.rng.random() < criteria * prefactor
+        if prefactor <= 0.0:
+            context.rng.random()
+            return False
+
+        return metropolis(context, exponential + math.log(prefactor))
